@@ -14,5 +14,15 @@ GNext ==
      /\ UNCHANGED done
   \/ /\ ~done /\ now = MaxT /\ done' = TRUE /\ UNCHANGED vars
 GSpec == GInit /\ [][GNext]_gvars
+\* a directed behaviour: one request, an idle period of more than two accounting seconds, then a burst above the limit
+\* from the same address (the window must start over at the first request of the burst, not be carried forward)
+CONSTANT Idle
+A1 == CHOOSE a \in Addrs : TRUE
+INext ==
+  \/ /\ ~done /\ Len(log) = 0 /\ Request(A1) /\ UNCHANGED done
+  \/ /\ ~done /\ Len(log) >= 1 /\ now < Idle /\ Tick /\ UNCHANGED done
+  \/ /\ ~done /\ now = Idle /\ Len(log) < Limit + 4 /\ Request(A1) /\ UNCHANGED done
+  \/ /\ ~done /\ now = Idle /\ Len(log) = Limit + 4 /\ done' = TRUE /\ UNCHANGED vars
+ISpec == GInit /\ [][INext]_gvars
 Emit == done => PrintT(<<"RL", ToJson([limit |-> Limit, sec |-> Sec, log |-> [i \in DOMAIN log |-> [a |-> ToString(log[i].a), t |-> log[i].t, served |-> log[i].served]]])>>)
 =============================================================================
